@@ -220,7 +220,7 @@ class C20(SchedProp):
     gen_opts: dict = {}
     pair_opts = {'noise': 0.0, 'p_suicide': 0.0}
     # (random kill-plan cases, base workflows, kill points per base workflow [None = all], bases with statement-level kill points)
-    sizes = {'quick': (16, 4, 8, 0), 'thorough': (240, 10, None, 3)}
+    sizes = {'quick': (16, 4, 8, 2), 'thorough': (240, 10, None, 3)}
 
     def setup(self):
         pass
